@@ -374,7 +374,7 @@ func (in *MaskInst) enumerateFaults(call *tla.Value) {
 		switch {
 		case o.Panic != "":
 			in.faults = append(in.faults, "panic-after-fault "+ctl.what)
-		case o.Err == nil && (after != after0 || fmt.Sprint(o.Out) != fmt.Sprint(o0.Out)):
+		case o.Err == nil && (o0.Err != nil || after != after0 || fmt.Sprint(o.Out) != fmt.Sprint(o0.Out)):
 			// success was reported although the failed primitive's work is missing from the outcome
 			in.faults = append(in.faults, "fault-swallowed "+ctl.what)
 		}
